@@ -2,6 +2,10 @@ CONSTANTS
   Threads = {1, 2}
   MaxTasks = 3
   MaxGen = 2
+  MaxHeld = 1
+  Controllers = {1, 2}
+  Submitters = {1, 2}
+  Ops = {"Start", "Shutdown", "WaitShutdown", "WaitIsZero", "Submit", "SubmitBegin", "SubmitEnd", "Release"}
   WorkerCounts = {1, 2}
 INVARIANTS TypeOK Conservation NoIdleWithWork WaitersJustified ShutdownCompletes
 PROPERTIES ExactlyOnce
